@@ -301,7 +301,7 @@ Lemma wit_package ca cb pre suf Dt Da Dack L n :
   wit_check_gen ca cb pre suf Dt Da Dack L n = true ->
   exists st0 st st',
     net_init ca cb = Ok st0 /\ net_run st0 pre = Ok st /\
-    NI st /\ opts_ok st /\ dl_sync (fa_init Dt Da st) st /\
+    NI st /\ opts_ok st /\ dl_sync Da (fa_init Dt Da st) st /\
     run_all (safe3 SA Dack) st suf /\ fair_run Dt Da (fa_init Dt Da st) st suf /\
     net_run st suf = Ok st' /\
     L <= l_len (ep_written (net_get st SA)) /\ L - una_off (net_get st SA) <= Z.of_nat n /\
@@ -339,7 +339,7 @@ Proof. unfold wit_prefix. cbn [In]. tauto. Qed.
 Theorem composition_hypotheses_satisfiable :
   exists st0 st st',
     net_init ex_cfg_a ex_cfg_b = Ok st0 /\ net_run st0 wit_prefix = Ok st /\
-    NI st /\ opts_ok st /\ dl_sync (fa_init 5000 5000 st) st /\
+    NI st /\ opts_ok st /\ dl_sync 5000 (fa_init 5000 5000 st) st /\
     run_all (safe3 SA 10000) st wit_suffix /\ fair_run 5000 5000 (fa_init 5000 5000 st) st wit_suffix /\
     net_run st wit_suffix = Ok st' /\
     5 <= l_len (ep_written (net_get st SA)) /\ 5 - una_off (net_get st SA) <= Z.of_nat 5 /\
